@@ -15,7 +15,7 @@ class Eng(cl.CLEngine):
 
 
 def shard(ctx):
-    drive(ctx, Eng, ctx.n(16 * 120, 16 * 4000), min_steps=8, max_steps=70, props={"C11"})
+    drive(ctx, Eng, ctx.n(16 * 250, 16 * 6000), min_steps=8, max_steps=70, props={"C11"})
 
 
 def replay(case, ctx):
